@@ -1,7 +1,7 @@
 (* C14 - tie to the source: EmpiricalDistribution.pvalue / expected_value and ToyCalculator.pvalues translated on every
    run from pyhf/infer/calculators.py (coq/gen/EmpiricalGen.v, written by harness/props/c14.py:extract) coincide
    with the hand model of Empirical.v. *)
-From Coq Require Import ZArith Bool List.
+From Coq Require Import ZArith QArith Qcanon Bool List.
 Require Import PV.Num PV.Empirical PV.gen.EmpiricalGen.
 Import ListNotations.
 Local Open Scope list_scope.
@@ -28,3 +28,39 @@ Proof. reflexivity. Qed.
 Lemma tie_toy_pvalues : forall teststat sb b, gen_toy_pvalues N Phi percentile teststat sb b = @toy_pvalues N teststat sb b.
 Proof. reflexivity. Qed.
 End Tie.
+
+(* ---------- ToyCalculator.distributions ---------- *)
+Lemma fold_append_map {A B : Type} (f : A -> B) (l : list A) (acc : list B) :
+  fold_left (fun s x => s ++ [f x]) l acc = acc ++ map f l.
+Proof. revert acc. induction l as [|a r IH]; intros acc; simpl; [now rewrite app_nil_r|]. rewrite IH, <- app_assoc. reflexivity. Qed.
+
+Section TieDistributions.
+Variable N : Num.
+Variables Pars Data Pdf Init Bounds Fixed : Type.
+Variable fit : V N -> Data -> Pdf -> option Init -> option Bounds -> option Fixed -> Pars.
+Variable sample : nat -> Pdf -> Pars -> nat -> list Data.
+Variable tsf : test_stat -> V N -> Data -> Pdf -> Init -> Bounds -> Fixed -> V N.
+Variables (data : Data) (pdf : Pdf) (init : Init) (bounds : Bounds) (fixed : Fixed).
+
+(* the stubs of the hand model, as the source instantiates them: BOTH conditional fits get the observed data, the model and the caller's
+   init / bounds / fixed; every toy statistic is evaluated on the model with the same three; draw k is the k-th sampling call *)
+Definition fit_of (poi : V N) : Pars := fit poi data pdf (Some init) (Some bounds) (Some fixed).
+Definition sampler_of (k : nat) (pars : Pars) (n : nat) : list Data := sample k pdf pars n.
+Definition teststat_of (ts : test_stat) (poi : V N) (d : Data) : V N := tsf ts poi d pdf init bounds fixed.
+
+Theorem tie_distributions track ts ntoys poi_test :
+  gen_distributions N Pars Data Pdf Init Bounds Fixed fit sample tsf data pdf init bounds fixed track ts ntoys poi_test
+  = distributions fit_of sampler_of teststat_of ts ntoys poi_test.
+Proof. unfold gen_distributions, distributions, fit_of, sampler_of, teststat_of. cbv zeta. rewrite !fold_append_map. cbn [app].
+  destruct ts; reflexivity. Qed.
+End TieDistributions.
+
+(* non-vacuity: a concrete run over Qc in which the two fits, the two draws and the statistic are all distinguishable *)
+Example tie_distributions_example :
+  gen_distributions QcNum (Qc * nat) (Qc * nat) nat nat nat nat
+    (fun poi d m i b f => (poi, match i, b, f with Some i, Some b, Some f => snd d + m + i + b + f | _, _, _ => 0 end)%nat)
+    (fun k m pars n => map (fun j => (fst pars, (snd pars + k + j)%nat)) (seq 0 n))
+    (fun ts poi d m i b f => nadd QcNum (fst d) (nofZ QcNum (Z.of_nat (snd d + f))))
+    (Q2Qc 0, 1%nat) 2%nat 3%nat 4%nat 5%nat true TQ0 2 (Q2Qc 7)
+  = ([Q2Qc 27; Q2Qc 28], [Q2Qc 22; Q2Qc 23]).
+Proof. vm_compute. reflexivity. Qed.
